@@ -62,7 +62,7 @@ class SquaredEuclideanNdim:
 
     @staticmethod
     def inner_dist(x, y):
-        return np.sum((x - y) ** 2)
+        return np.sum(np.subtract(x, y) ** 2)
 
     @staticmethod
     def result(x):
@@ -92,7 +92,7 @@ class EuclideanNdim:
 
     @staticmethod
     def inner_dist(x, y):
-        return np.sqrt(np.sum(np.power(x - y, 2)))
+        return np.sqrt(np.sum(np.power(np.subtract(x, y), 2)))
 
     @staticmethod
     def result(x):
